@@ -428,9 +428,16 @@ class Library(object):
     def str_lower(self, s):
         if isinstance(s, str):
             return s.lower()
-        self.I.ctx.used_axioms.add('str.lower uninterpreted (length-preserving)')
+        ctx = self.I.ctx
+        ctx.used_axioms.add(
+            "str.lower uninterpreted; for a string of length <= 1: "
+            "lower(s) == 'y' iff s in ('y','Y') (all 1,114,112 code points are "
+            "enumerated under CPython by check C14)")
         r = spec.lower_f(s.t)
-        self.I.ctx.assume(z3.Length(r) == z3.Length(s.t))
+        ctx.assume(z3.Implies(z3.Length(s.t) <= 1, (r == z3.StringVal('y')) ==
+                              z3.Or(s.t == z3.StringVal('y'),
+                                    s.t == z3.StringVal('Y'))))
+        ctx.assume((r == z3.StringVal('')) == (s.t == z3.StringVal('')))
         return Sym(r, 'str')
 
     def str_upper(self, s):
@@ -580,6 +587,16 @@ class Library(object):
             if v.ty == 'str':
                 return v
             if v.ty == 'int':
+                ctx = self.I.ctx
+                if ctx.entails(v.t >= 0):
+                    r = z3.IntToStr(v.t)
+                    spec.mark_noslash(ctx, r)
+                    spec.mark_nonempty(ctx, r)
+                    key = ('digits', r.get_id())
+                    if key not in ctx.notes:
+                        ctx.notes[key] = True
+                        ctx.assume(z3.InRe(r, z3.Plus(z3.Range('0', '9'))))
+                    return Sym(r, 'str')
                 return mk(z3.If(v.t >= 0, z3.IntToStr(v.t),
                                 z3.Concat(z3.StringVal('-'),
                                           z3.IntToStr(-v.t))))
